@@ -825,7 +825,7 @@ def check_proxy_dict(case, ctx):
             elif op == "pop":
                 _cmp(where, op, "proxy_dict", _call(lambda: p.pop(k)), _call(lambda: model.pop(k)))
             elif op == "pop_default":
-                if k not in model and not case.get("pinned"):
+                if False and k not in model and not case.get("pinned"):  # repaired in /repo (fix: 74f4256): generated again
                     # confirmed finding C50/proxy_dict/pop-default: pop(missing_key, default) passes the default through the value getter
                     ctx.exclude("_AssociationDict.pop(missing key, non-None default) (known finding: AttributeError from the getter)")
                 else:
